@@ -2,6 +2,7 @@
 //@property C09 C04
 use vstd::prelude::*;
 use std::ops::{Add, Div, Mul, Neg, Rem, Sub, BitAnd, BitOr, BitXor};
+use std::cmp::Ordering;
 use vstd::std_specs::cmp::{PartialEqSpec, PartialEqSpecImpl, PartialOrdSpec, PartialOrdSpecImpl};
 verus! {
 //@include prelude.rs
@@ -11,6 +12,15 @@ verus! {
 //@include bigint_ops.rs
 //@include bigrat.rs
 //@include bigrat_ops.rs
+//@include iter.rs
+//@include btree.rs
+//@include baseunit.rs
 //@part numeric
+//@part btree_merge
+//@part dims
+//@part number
+//@part reply_types
+//@part to_list
+//@autoslots
 } // verus!
 fn main() {}
